@@ -1,17 +1,20 @@
 import Driver.Util
 import Driver.BitSet
 import Driver.Set
+import Driver.GErrClone
 /-! Line-protocol driver: one request per line on stdin, one answer per line on stdout.
 Core-only so that it links as a native executable. -/
 open Drv
 
 structure DState where
   set : Drv.Set.St := none
+  ge : Drv.GErrClone.St := []
 
 def step (st : DState) (line : String) : DState × String :=
   match words line with
   | "bs" :: rest => (st, BitSet.handle rest)
   | "set" :: rest => let r := Drv.Set.handle st.set rest; ({ st with set := r.1 }, r.2)
+  | "ge" :: rest => let r := Drv.GErrClone.handle st.ge rest; ({ st with ge := r.1 }, r.2)
   | "case" :: rest => ({}, joinSp ("case" :: rest))
   | "echo" :: rest => (st, joinSp rest)
   | _ => (st, "bad-op")
